@@ -1,7 +1,7 @@
 SPECIFICATION Spec
 CONSTANTS
   N = 4
-  BigN = {98, 99, 100, 101, 150}
+  BigN = {98, 99, 100, 101, 150, 255, 256, 257, 300, 355, 512}
 INVARIANTS TypeOK CountsCapped NoGreaseHashed SortedB SortedC
 PROPERTIES Invariance
 CHECK_DEADLOCK FALSE
